@@ -1,6 +1,6 @@
 module verifharness
 
-go 1.23.0
+go 1.25
 
 require (
 	github.com/platinummonkey/go-concurrency-limits v0.0.0
